@@ -84,7 +84,8 @@ def outcome(fn):
         return "internal", ex
 
 
-LIFE_TEXTS = ["if a is lo then y is lo", "if a is hi then y is hi", "if a is nowhere then y is lo", "if a is lo then y is nowhere"]
+LIFE_TEXTS = ["if a is lo then y is lo", "if a is hi then y is hi", "if a is nowhere then y is lo", "if a is lo then y is nowhere",
+              "if b is lo then y is lo", "if b2 is hi then y is hi"]       # the last two name the second input as it is called in vocabulary 1 / 2
 
 
 def lifecycle_leg(ctx, fl):
@@ -100,10 +101,12 @@ def lifecycle_leg(ctx, fl):
         raise MachineryError(f"only {len(g.emitted)} rule-lifecycle behaviours")
     div = 0
     e = make_engine(fl)
-    e.rule_blocks.append(fl.RuleBlock("life"))
+    e.rule_blocks[:] = [fl.RuleBlock("life")]       # the only block: Engine.restart stops at the first block that fails to load
     for beh in g.emitted:
         rb = fl.RuleBlock("life", rules=[fl.Rule.create(LIFE_TEXTS[0]), fl.Rule.create(LIFE_TEXTS[0])])
         e.rule_blocks[-1] = rb
+        if e.input_variables[1].name != "b":       # every behaviour starts in vocabulary 1
+            e.input_variables[1].name = "b"
         ctx.traces += 1
         for k, (st, ex) in enumerate(zip(beh["steps"], beh["expect"])):
             a, i, t = st["act"], st["i"] - 1, st["t"] - 1
@@ -123,6 +126,13 @@ def lifecycle_leg(ctx, fl):
                     rb.unload_rules()
                 elif a == "restart":
                     e.restart()
+                elif a == "rename":     # alternately: the variable is renamed; it is replaced by another object of the other name
+                    old = e.input_variables[1]
+                    new_name = "b2" if old.name == "b" else "b"
+                    if (k + len(beh["steps"])) % 2:
+                        old.name = new_name
+                    else:
+                        e.input_variables[1] = fl.InputVariable(new_name, minimum=0.0, maximum=1.0, terms=[fl.Triangle("lo", 0.0, 0.25, 0.5), fl.Triangle("hi", 0.5, 0.75, 1.0)])
             except Exception as exn:
                 raised = exn
             ctx.count()
